@@ -602,8 +602,11 @@ impl<Tx: Debug + ProstMessage + Default, Rx: Debug + ProstMessage + Default> Cha
                     buffer.len(),
                     "available_data must equal the data slice length we validated against"
                 );
-                let message = Rx::decode(&buffer[delimiter_size()..message_len])
-                    .map_err(ChannelError::InvalidProtobufMessage)?;
+                // The frame leaves the buffer whether or not its payload decodes.
+                // A frame left in place would be parsed again by every later
+                // call: the same error forever, and no following message could
+                // ever be delivered.
+                let decoded = Rx::decode(&buffer[delimiter_size()..message_len]);
                 let consumed = self.front_buf.consume(message_len);
                 // The whole frame (delimiter + payload) is consumed exactly:
                 // pair-assert that consume advanced by message_len and the data
@@ -617,6 +620,7 @@ impl<Tx: Debug + ProstMessage + Default, Rx: Debug + ProstMessage + Default> Cha
                     available_before - message_len,
                     "available_data must drop by exactly the consumed frame length"
                 );
+                let message = decoded.map_err(ChannelError::InvalidProtobufMessage)?;
                 return Ok(Some(message));
             }
         }
